@@ -48,11 +48,37 @@ pub fn run(args: &[String]) -> i32 {
             Ok(Some(Ok(o))) => {
                 if !want {
                     hit(format!("C05|Field{}|out-of-format-accepted|{}", tag, lab), json!({"ser": o.ser, "json": o.json}));
-                } else if !amt {
-                    // accepted as a whole: nothing ignored, truncated or re-numbered
-                    let expect = format!(":{}:{}", tag, content);
-                    if lf(&o.ser) != expect {
-                        hit(format!("C05|Field{}|accepted-but-altered|{}", tag, lab), json!({"ser": o.ser}));
+                } else {
+                    if !amt {
+                        // accepted as a whole: nothing ignored, truncated or re-numbered -- every character
+                        // of the content must reappear, in order, in the serialised field (a serialiser
+                        // may add canonical decoration such as a leading slash, but may lose nothing)
+                        let body = lf(&o.ser);
+                        let body = body.strip_prefix(&format!(":{}:", tag)).unwrap_or(&body).to_string();
+                        let mut it = body.chars();
+                        let kept = content.chars().all(|c| it.by_ref().any(|d| d == c));
+                        if !kept {
+                            hit(format!("C05|Field{}|accepted-but-altered|{}", tag, lab), json!({"ser": o.ser}));
+                        }
+                    }
+                    // a first line that is the optional identifier / account line ([/34x] etc.) must not
+                    // end up among the name-and-address lines
+                    if c["first"] == "idline" {
+                        let line1 = content.split('\n').next().unwrap_or("");
+                        if line1.starts_with('/') && content.contains('\n') {
+                            let mut in_arrays = false;
+                            fn scan(v: &Value, line1: &str, found: &mut bool) {
+                                match v {
+                                    Value::Array(a) => for x in a { if x.as_str() == Some(line1) { *found = true; } scan(x, line1, found); },
+                                    Value::Object(o) => for x in o.values() { scan(x, line1, found); },
+                                    _ => {}
+                                }
+                            }
+                            scan(&o.json, line1, &mut in_arrays);
+                            if in_arrays {
+                                hit(format!("C05|Field{}|identifier-line-filed-as-text-line|{}", tag, lab), json!({"json": o.json}));
+                            }
+                        }
                     }
                 }
             }
@@ -61,8 +87,21 @@ pub fn run(args: &[String]) -> i32 {
             samples.push(json!({"tag": tag, "label": label, "content": content, "reference_accepts": want}));
         }
     }
+    // a case with several deviations ("a & b") is reported only if none of its single deviations
+    // already shows the same kind of violation for the same field
+    let keys: std::collections::BTreeSet<String> = violations.keys().cloned().collect();
+    let mut subsumed = 0u64;
+    violations.retain(|sig, _| {
+        let parts: Vec<&str> = sig.splitn(4, '|').collect();
+        if parts.len() < 4 || !parts[3].contains(" & ") {
+            return true;
+        }
+        let single = parts[3].split(" & ").any(|l| keys.contains(&format!("{}|{}|{}|{}", parts[0], parts[1], parts[2], l)));
+        if single { subsumed += 1; }
+        !single
+    });
     let violations: Vec<Value> = violations.iter().map(|(sig, (n, r))| json!({"sig": sig, "count": n, "replay": r})).collect();
     std::fs::write(out_path, json!({"evaluated": evaluated, "in_language": in_lang, "distinct_nontrivial": nontrivial,
-        "fields": per_tag.len(), "violations": violations, "panics_noted_for_C07": panics, "samples": samples}).to_string()).expect("write");
+        "fields": per_tag.len(), "subsumed_multi_deviation": subsumed, "violations": violations, "panics_noted_for_C07": panics, "samples": samples}).to_string()).expect("write");
     0
 }
